@@ -83,7 +83,7 @@ class Lowerer:
     def blank():
         return {"op": "", "name": "", "ty": "", "builtin": False, "up": "", "upw": 0, "arr": "none", "n": 0,
                 "cf": "", "hasc": False, "cbytes": [], "selfsize": False, "ctl": False, "tested": [],
-                "cnt": False, "comp": False, "hv": False, "vlo": 0, "vhi": 0, "maxlen": 0,
+                "cnt": False, "free": [], "comp": False, "hv": False, "vlo": 0, "vhi": 0, "maxlen": 0,
                 "arms": [], "els": 0, "blk": 0}
 
     def instr(self, m, scan):
@@ -117,6 +117,7 @@ class Lowerer:
             if m["name"] in scan["ctl"]:
                 r["ctl"] = True
                 r["tested"] = sorted(scan["ctl"][m["name"]])
+                r["free"] = sorted(scan["ctl"][m["name"]] - scan["entangled"].get(m["name"], set()))
             tags = m["tags"]
             if "compressed" in tags:
                 r["comp"] = tags["compressed"][-1] == "true"
@@ -143,26 +144,36 @@ class Lowerer:
 
     @staticmethod
     def scan_container(members):
-        """Lexical scan: names used as array counts and as `if` variables (with compared names)."""
-        counts, ctl = set(), {}
+        """Lexical scan: names used as array counts and as `if` variables (with compared names).
+        `entangled`: compared names of a variable that occur in an `if` with several arms, an else,
+        several `||` conditions, or nested inside another `if` on the same variable - the others
+        ("free") are tested only by plain independent `if (v & NAME) { .. }` statements."""
+        counts, ctl, ent = set(), {}, {}
 
-        def walk(ms):
+        def walk(ms, enclosing):
             for m in ms:
                 if m["m"] == "decl":
                     if m["array"] and m["array"]["size"] == "var":
                         counts.add(m["array"]["field"])
                 elif m["m"] == "if":
+                    simple = len(m["arms"]) == 1 and m["else"] is None and len(m["arms"][0]["conds"]) == 1 \
+                        and m["arms"][0]["conds"][0]["op"] == "&"
+                    vars_here = set()
                     for arm in m["arms"]:
                         for c in arm["conds"]:
                             if isinstance(c["val"], str):
                                 ctl.setdefault(c["var"], set()).add(c["val"])
-                        walk(arm["body"])
+                                vars_here.add(c["var"])
+                                if not simple or c["var"] in enclosing:
+                                    ent.setdefault(c["var"], set()).add(c["val"])
+                    for arm in m["arms"]:
+                        walk(arm["body"], enclosing | vars_here)
                     if m["else"] is not None:
-                        walk(m["else"])
+                        walk(m["else"], enclosing | vars_here)
                 elif m["m"] == "optional":
-                    walk(m["body"])
-        walk(members)
-        return {"counts": counts, "ctl": ctl}
+                    walk(m["body"], enclosing)
+        walk(members, set())
+        return {"counts": counts, "ctl": ctl, "entangled": ent}
 
     @staticmethod
     def has_unimplemented(members):
